@@ -2,6 +2,7 @@
 \* (agent with a descendant that inherited standard error and outlives it, receiver non-nil)
 CONSTANT Agents <- MCAgents
 CONSTANT WaitsForCopy = TRUE
+CONSTANT SharedLock = FALSE
 SPECIFICATION FairSpec
 INVARIANTS Inv_Exited Inv_Reaped Inv_Order
 PROPERTIES Returns
